@@ -6,12 +6,24 @@ import (
 
 	"github.com/google/uuid"
 	"github.com/kercylan98/vivid"
+	"github.com/kercylan98/vivid/internal/messages"
 	"github.com/kercylan98/vivid/internal/utils"
 )
 
 var (
 	_ vivid.ActorRef = (*Ref)(nil)
 )
+
+func init() {
+	// 供根包中携带 ActorRef 字段的内置消息在解码时重建引用，见 messages.RefFactory
+	messages.RefFactory = func(address, path string) (any, error) {
+		ref, err := NewRef(address, path)
+		if err != nil {
+			return nil, err
+		}
+		return ref, nil
+	}
+}
 
 const agentFutureMarker = "@future@"
 const LocalAddress = "localhost"
